@@ -4,13 +4,7 @@ from .. import core, scene, scenecheck as sc, gen
 
 
 def corpus(pid, tier="quick"):
-    """minimised failing inputs kept from earlier findings; <pid>.thorough.cases holds the expensive ones"""
-    out = []
-    for name in [pid + ".cases"] + ([pid + ".thorough.cases"] if tier == "thorough" else []):
-        p = os.path.join(core.ROOT, "corpus", name)
-        if os.path.exists(p):
-            out += [l.strip() for l in open(p) if l.strip() and not l.startswith("#")]
-    return out
+    return core.corpus(pid, tier)
 
 
 def stats(lines):
